@@ -39,6 +39,7 @@ Atoms ==
     Pl("@ExpCh", "chan int"), Pl("(chan int)(nil)", "chan int"),
     Ex("@ExpAny", "interface{}", FALSE, FALSE, TRUE, FALSE), Ex("error(nil)", "error", FALSE, FALSE, TRUE, FALSE),
     Pl("@MyInt(@ExpInt)", "@MyInt"), Pl("@MyInt(3)", "@MyInt"),
+    Pl("@MyFn(@ExpFn)", "@MyFn"),        \* conversions to a named function type: they look like calls, they are not
     Pl("struct{ X int }{X: 1}", "struct{ X int }"), Pl("[]@ST{{A: 1}, {A: 2}}", "[]@ST"), Pl("[]*int{@ExpPtr}", "[]*int"),
     Pl("map[@ST]string{{A: 1}: \"one\"}", "map[@ST]string"), Pl("[]byte(\"abc\")", "[]byte"), Pl("[2][]int{{1}, {2, 3}}", "[2][]int") }
 
@@ -62,7 +63,8 @@ Derived(e) ==
     [] e.sort = "string" -> { W(e, "(" \o e.go \o ") + \"y\"", "string"), W(e, "[]byte(" \o e.go \o ")", "[]byte"), W(e, "[]string{" \o e.go \o "}", "[]string") }
     [] e.sort = "[3]int" -> { W(e, "(" \o e.go \o ")[1]", "int"), W(e, "len(" \o e.go \o ")", "int") }
     [] e.sort = "map[string]int" -> { W(e, "(" \o e.go \o ")[\"k\"]", "int") }
-    [] e.sort = "func() int" -> { [W(e, "(" \o e.go \o ")()", "int") EXCEPT !.calls = TRUE] }
+    [] e.sort = "func() int" -> { [W(e, "(" \o e.go \o ")()", "int") EXCEPT !.calls = TRUE], W(e, "@MyFn(" \o e.go \o ")", "@MyFn") }
+    [] e.sort = "@MyFn" -> { [W(e, "(" \o e.go \o ")()", "int") EXCEPT !.calls = TRUE], W(e, "(func() int)(" \o e.go \o ")", "func() int") }
     [] e.sort = "chan int" -> { [W(e, "<-(" \o e.go \o ")", "int") EXCEPT !.calls = TRUE] }
     [] e.sort = "interface{}" -> { W(e, "(" \o e.go \o ").(int)", "int") }
     [] OTHER -> {}
